@@ -41,6 +41,10 @@ def confirm(rp, resp):
         o = sp.oracle(rows[b], n, variant)
         st = o.start()
         picks = 0
+        if hasattr(sp, "bookkeeping_concrete") and resp["extra"]:
+            wrong = sp.bookkeeping_concrete(resp["extra"][0], resp["masks"][0], o, st, b, n)
+            if wrong:
+                return True, f"row {b} at reset: what the policy is shown does not follow from the instance: {wrong[0]}"
         for t in range(resp["steps"]):
             active = not resp["done"][t][b]
             o.step(st, acts[t][b], active, t)
